@@ -72,6 +72,8 @@ def _apply(e, operands, out):
     if mm:
         ak = arg_kinds(args)
         out.mism.extend((e[1], ak) + m for m in mm)
+    if out.steps is not None:
+        out.steps.append((e[1], arg_kinds(args), H.plain(res)))
     return res
 
 
@@ -97,7 +99,7 @@ def arg_kinds(args):
     return s
 
 
-def execute(prog, vals, mode, n, want_trace=False, p=None):
+def execute(prog, vals, mode, n, want_trace=False, p=None, want_steps=False):
     """Run one program on one input vector in one mode from a clean state."""
     if p is not None and H.R.p != p:
         H.R.p = p
@@ -105,6 +107,7 @@ def execute(prog, vals, mode, n, want_trace=False, p=None):
     rt = H.rt
     out = Outcome()
     out.unsat, out.mism, out.calls = [], [], 0
+    out.steps = [] if want_steps else None
     out.trace = None
     out.result_wires = None
     out.excmsg = None
